@@ -58,7 +58,8 @@ InitState(p) ==
    ch |-> [c \in 1..Len(P.chans) |-> [buf |-> <<>>, cap |-> P.chans[c], senders |-> 1, rxalive |-> TRUE,
                                        waitS |-> <<>>, waitR |-> <<>>]],
    sem |-> [x \in 1..Len(P.sems) |-> [avail |-> P.sems[x].n, fair |-> P.sems[x].fair # 0, closed |-> FALSE,
-                                       q |-> <<>>, granted |-> {}, held |-> 0]],
+                                       q |-> <<>>, granted |-> {},
+                                       held |-> 0, rel |-> 0]],      \* permits taken by completed acquisitions / added by release, so far
    bar |-> [b \in 1..Len(P.barriers) |-> [n |-> P.barriers[b], arrived |-> {}, rel |-> {}, gen |-> 0]],
    \* program-declared Once cells, then two `static` Once cells, then the hidden cells of two lazy statics
    once |-> [x \in 1..(P.nonce + 4) |-> [st |-> "idle", owner |-> -1, doneby |-> -1]],
@@ -146,6 +147,7 @@ Disc(c) == c.buf = <<>> /\ c.senders = 0
 TryRecvEmpty(c) == IF c.cap = 0 THEN c.buf = <<>> /\ c.waitS = <<>> ELSE Len(c.waitR) >= Len(c.buf)
 
 (* BatchSemaphore *)
+SemReqOf(s, t) == NextOp(s, t).v      \* the request of a task that is inside an acquire
 SemWaiters(s, x) == {s.sem[x+1].q[i].t : i \in 1..Len(s.sem[x+1].q)}
 SemReq(s, x, t) == LET q == s.sem[x+1].q IN q[CHOOSE i \in 1..Len(q) : q[i].t = t].n
 \* fair: grant from the head while it fits
@@ -159,7 +161,7 @@ SemAfterAcquire(s, t, x) ==   \* unfair: waiters that no longer fit lose their e
   ELSE LET W == {w \in SemWaiters(s, x) \ {t} : SemReq(s, x, w) > s.sem[x+1].avail} IN
        Harden(ClearXr(s, W), W)
 SemRelease(s, x, n) ==
-  LET sm0 == [s.sem[x+1] EXCEPT !.avail = @ + n] IN
+  LET sm0 == [s.sem[x+1] EXCEPT !.avail = @ + n, !.rel = @ + n] IN
   IF sm0.fair
   THEN LET sm1 == GrantFront(sm0) IN WakeAll([s EXCEPT !.sem[x+1] = sm1], sm1.granted \ sm0.granted)
   ELSE LET W == {w \in SemWaiters(s, x) : SemReq(s, x, w) <= sm0.avail} IN
@@ -419,18 +421,18 @@ Complete(s, t) ==
          LET sm == s.sem[o.o+1] IN
          IF p = "wait"
          THEN IF sm.fair
-              THEN IF t \in sm.granted THEN R(0, [base EXCEPT !.sem[o.o+1].granted = @ \ {t}])
+              THEN IF t \in sm.granted THEN R(0, [base EXCEPT !.sem[o.o+1].granted = @ \ {t}, !.sem[o.o+1].held = @ + o.v])
                    ELSE R(-1, base)
               ELSE IF sm.closed THEN R(-1, base)
-                   ELSE R(0, SemAfterAcquire([Unhard(base, {t}) EXCEPT !.sem[o.o+1].avail = @ - o.v,
+                   ELSE R(0, SemAfterAcquire([Unhard(base, {t}) EXCEPT !.sem[o.o+1].avail = @ - o.v, !.sem[o.o+1].held = @ + o.v,
                                                           !.sem[o.o+1].q = SelectSeq(@, LAMBDA w : w.t # t)], t, o.o))
          ELSE IF sm.closed THEN R(-1, base)
-              ELSE R(0, SemAfterAcquire([base EXCEPT !.sem[o.o+1].avail = @ - o.v], t, o.o))
+              ELSE R(0, SemAfterAcquire([base EXCEPT !.sem[o.o+1].avail = @ - o.v, !.sem[o.o+1].held = @ + o.v], t, o.o))
     [] o.k = "try_acquire" ->
          LET sm == s.sem[o.o+1] IN
          IF sm.closed THEN R(-1, base)
          ELSE IF o.v <= sm.avail /\ (~sm.fair \/ sm.q = <<>>)
-              THEN R(0, SemAfterAcquire([base EXCEPT !.sem[o.o+1].avail = @ - o.v], t, o.o))
+              THEN R(0, SemAfterAcquire([base EXCEPT !.sem[o.o+1].avail = @ - o.v, !.sem[o.o+1].held = @ + o.v], t, o.o))
               ELSE R(-3, base)
     [] o.k = "release" -> R(0, IF o.v = 0 THEN base ELSE SemRelease(base, o.o, o.v))
     [] o.k = "close" ->
@@ -591,6 +593,12 @@ RwExclusion(s) ==
 ChanCapacity(s) ==
   \A c \in 1..Len(s.ch) : s.ch[c].cap >= 0 => Len(s.ch[c].buf) <= Max(s.ch[c].cap, 1)
 SemNonNegative(s) == \A x \in 1..Len(s.sem) : s.sem[x].avail >= 0
+\* permits available + handed to queued waiters + taken by completed acquisitions = initial + released
+RECURSIVE SumReq(_, _, _)
+SumReq(s, x, T) == IF T = {} THEN 0 ELSE LET t == CHOOSE u \in T : TRUE IN SemReqOf(s, t) + SumReq(s, x, T \ {t})
+PermitConservation(s) ==
+  \A x \in 1..Len(s.sem) :
+     s.sem[x].avail + SumReq(s, x, s.sem[x].granted) + s.sem[x].held = Prog(s).sems[x].n + s.sem[x].rel
 FairHeadNeverFits(s) ==
   \A x \in 1..Len(s.sem) : (s.sem[x].fair /\ s.sem[x].q # <<>>) => Head(s.sem[x].q).n > s.sem[x].avail
 BarrierBound(s) == \A b \in 1..Len(s.bar) : Cardinality(s.bar[b].arrived) < Max(s.bar[b].n, 1)
@@ -601,13 +609,14 @@ StepBoundInv(s) == StepsUsed(s) <= BoundN(s)
 \* every waker wake is honoured: a future whose waker was invoked during or after its latest poll is offered for another one
 NoLostWake(s) == \A t \in s.due : (s.fut[t+1] /\ ~s.fin[t+1] /\ ~s.inpoll[t+1]) => Progress(s, t)
 
-StateInv(s) == /\ MutexExclusion(s) /\ RwExclusion(s) /\ ChanCapacity(s) /\ SemNonNegative(s)
+StateInv(s) == /\ MutexExclusion(s) /\ RwExclusion(s) /\ ChanCapacity(s) /\ SemNonNegative(s) /\ PermitConservation(s)
                /\ FairHeadNeverFits(s) /\ BarrierBound(s)
 \* the same, as a list of names of violated invariants (trace validation reports and goes on)
 Violated(s) == (IF MutexExclusion(s) THEN {} ELSE {"MutexExclusion"})
           \cup (IF RwExclusion(s) THEN {} ELSE {"RwExclusion"})
           \cup (IF ChanCapacity(s) THEN {} ELSE {"ChanCapacity"})
           \cup (IF SemNonNegative(s) THEN {} ELSE {"SemNonNegative"})
+          \cup (IF PermitConservation(s) THEN {} ELSE {"PermitConservation"})
           \cup (IF FairHeadNeverFits(s) THEN {} ELSE {"FairHeadNeverFits"})
           \cup (IF BarrierBound(s) THEN {} ELSE {"BarrierBound"})
           \cup (IF StepBoundInv(s) THEN {} ELSE {"StepBound"})
